@@ -79,7 +79,10 @@ asn1f_fix_enum(arg_t *arg) {
 				eval = ev->value->value.v_integer;
 				break;
 			case ATV_REFERENCED:
-				FATAL("HERE HERE HERE", 1);
+				FATAL("ENUMERATED type %s at line %d "
+					"contain element %s with a referenced value",
+					expr->Identifier, expr->_lineno,
+					ev->Identifier);
 				rvalue = -1;
 				continue;
 				break;
